@@ -3,6 +3,7 @@ package specgen
 import (
 	"fmt"
 	"math/rand"
+	"sort"
 	"strings"
 )
 
@@ -224,6 +225,81 @@ func InlineOneOfMembers(doc M) (M, bool) {
 	return out, changed
 }
 
+// AliasChains replaces, with probability p each, the $ref to a parameter,
+// header, request body or response component by a $ref to a fresh alias
+// component that reaches the same target through 1-3 hops ("through any
+// chain of aliases"). Schema components are left alone: a schema that is a
+// bare $ref becomes a Go type definition without codec (recorded finding).
+func AliasChains(doc M, rng *rand.Rand, p float64) M {
+	out := CloneM(doc)
+	comps, _ := out["components"].(M)
+	if comps == nil {
+		return out
+	}
+	kinds := map[string]bool{"parameters": true, "headers": true, "requestBodies": true, "responses": true}
+	n := 0
+	var walk func(v any)
+	walk = func(v any) {
+		switch t := v.(type) {
+		case M:
+			for _, k := range sortedKeysM(t) {
+				walk(t[k])
+			}
+			ref, ok := t["$ref"].(string)
+			if !ok {
+				return
+			}
+			parts := strings.Split(strings.TrimPrefix(ref, "#/"), "/")
+			if len(parts) != 3 || parts[0] != "components" || !kinds[parts[1]] {
+				return
+			}
+			if rng.Float64() >= p {
+				return
+			}
+			km, _ := comps[parts[1]].(M)
+			if km == nil {
+				return
+			}
+			hops := 1 + rng.Intn(3)
+			target := ref
+			for h := 0; h < hops; h++ {
+				name := parts[2] + "Alias" + letters(n) + letters(h)
+				km[name] = M{"$ref": target}
+				target = "#/components/" + parts[1] + "/" + name
+			}
+			n++
+			t["$ref"] = target
+		case L:
+			for _, x := range t {
+				walk(x)
+			}
+		}
+	}
+	walk(out["paths"])
+	// references between components (a shared response naming a shared
+	// header); the alias entries made above are not walked again
+	for _, kind := range []string{"responses", "requestBodies", "parameters"} {
+		if km, ok := comps[kind].(M); ok {
+			for _, name := range sortedKeysM(km) {
+				if strings.Contains(name, "Alias") {
+					continue
+				}
+				walk(km[name])
+			}
+		}
+	}
+	return out
+}
+
+func sortedKeysM(m M) []string {
+	ks := make([]string, 0, len(m))
+	for k := range m {
+		ks = append(ks, k)
+	}
+	sort.Strings(ks)
+	return ks
+}
+
 // RefPairs builds the C18 corpus: for every base spec its inline-all,
 // hoist-all and a seeded partial rewrite. Aux["pair"] names the base.
 func RefPairs(seed int64, n int) []Case {
@@ -290,6 +366,8 @@ func RefPairs(seed int64, n int) []Case {
 		}
 		mk("hoist-all", Hoist(b.Spec, rng, 1))
 		mk("hoist-partial", Hoist(b.Spec, rng, 0.5))
+		mk("alias-chains", AliasChains(b.Spec, rng, 0.7))
+		mk("hoist-then-alias-chains", AliasChains(Hoist(b.Spec, rng, 1), rng, 1))
 	}
 	return out
 }
